@@ -71,10 +71,14 @@ class Cmd:
 class Cmds:
     """a choice between subcommands as one field; `optional` => field may be absent"""
 
-    def __init__(self, cmds, tag=None, optional=False):
+    def __init__(self, cmds, tag=None, optional=False, alt=None, alt_tag=None):
         self.cmds = cmds
         self.tag = tag
         self.optional = optional
+        # `alt`: a repeated positional offered as the other branch of the choice (taken when no
+        # command is entered); `alt_tag` wraps its value
+        self.alt = alt
+        self.alt_tag = alt_tag
 
 
 class Level:
@@ -322,6 +326,7 @@ def eval_level(ex, env, level, items, lo, hi, enclosing=()):
             raise ValueError(a)
     # -- subcommands: first unclaimed item --------------------------------------------------------
     cmd_fields = [(fi, f) for fi, f in enumerate(level.fields) if isinstance(f, Cmds)]
+    alt_pending = None
     if cmd_fields:
         if len(cmd_fields) > 1:
             raise ValueError("one command choice per level")
@@ -338,7 +343,9 @@ def eval_level(ex, env, level, items, lo, hi, enclosing=()):
                     entered = (ci, cmd)
                     break
         if entered is None:
-            if cf.optional:
+            if cf.alt is not None:
+                alt_pending = (fi, cf)
+            elif cf.optional:
                 vals[fi] = NONE
             else:
                 raise Fail("no command")
@@ -357,6 +364,17 @@ def eval_level(ex, env, level, items, lo, hi, enclosing=()):
     # -- positionals ------------------------------------------------------------------------------
     stream = [i for i in range(lo, hi) if not claimed[i] and items[i].kind in ("word", "posword")]
     p = 0
+    if alt_pending is not None:
+        fi, cf = alt_pending
+        if cf.alt.arity != "many" or any(isinstance(f, Pos) for f in level.fields):
+            raise ValueError("alt: one repeated positional, no other positional at this level")
+        vs = []
+        while p < len(stream):
+            claimed[stream[p]] = True
+            vs.append(conv(ex, env, cf.alt, items[stream[p]].val, stream[p]))
+            p += 1
+        v = Seq(tuple(vs))
+        vals[fi] = cf.alt_tag(v) if cf.alt_tag else v
     for fi, f in enumerate(level.fields):
         if not isinstance(f, Pos):
             continue
